@@ -110,20 +110,40 @@ Proof.
   destruct l as [|[f1|p1|m1] [|[f2|p2|m2] [|[f3|p3|m3] [|? ?]]]]; cbn; intros; try contradiction; lia.
 Qed.
 
-Lemma parse_callout_enc c fuel rest : wf_callout c -> (4 <= fuel)%nat ->
-  parse_callout fuel (enc_callout c ++ rest) = Some (Some c, rest).
+Lemma sub_min_len s : (4 <= length (enc_sub s))%nat.
+Proof. destruct s; unfold enc_sub, enc_fru, enc_pce, enc_mru, be; rewrite !app_length, !be_bytes_length; lia. Qed.
+Lemma subs_len l : (4 * length l <= length (flat_map enc_sub l))%nat.
+Proof. induction l as [|s l IH]; simpl; [lia|]. rewrite app_length. pose proof (sub_min_len s). lia. Qed.
+
+Definition callout_head_bytes (c : callout_t) : bytes :=
+  be 1 (c_size c) ++ be 1 (c_flags c) ++ be 1 (c_prio c) ++ be 1 (N.of_nat (length (c_loc c))) ++ c_loc c.
+
+Lemma callout_head_enc c rest : wf_callout c ->
+  callout_head (callout_head_bytes c ++ rest) = Some ((c_size c, c_flags c, c_prio c, c_loc c), rest).
 Proof.
-  intros W Hf. pose proof W as (H1 & H2 & Hl & Ha & Ws & Sh & Hs & H8).
-  unfold parse_callout, enc_callout, be. rewrite <- !app_assoc.
+  intros W. pose proof W as (H1 & H2 & Hl & Ha & Ws & Sh & Hs & H8).
+  unfold callout_head, callout_head_bytes, be. rewrite <- !app_assoc.
   assert (N.of_nat (length (c_loc c)) < 256) by lia.
   rd.
   assert (Hloc: (if 0 <? N.of_nat (length (c_loc c)) then get_memN (N.of_nat (length (c_loc c))) else ret [])
-                  (c_loc c ++ flat_map enc_sub (c_subs c) ++ rest) = Some (c_loc c, flat_map enc_sub (c_subs c) ++ rest)).
+                  (c_loc c ++ rest) = Some (c_loc c, rest)).
   { destruct (0 <? N.of_nat (length (c_loc c))) eqn:E.
     - apply N.ltb_lt in E. apply get_memN_app; lia.
     - apply N.ltb_ge in E. assert (length (c_loc c) = 0%nat) by lia. apply len_nil in H0. rewrite H0. reflexivity. }
-  unfold bind at 1. rewrite Hloc. cbv beta iota.
-  unfold bind at 1. rewrite parse_subs_exact; [|assumption|pose proof (subs_len_le3 _ Sh); lia|lia].
+  unfold bind at 1. rewrite Hloc. reflexivity.
+Qed.
+
+Lemma enc_callout_split c : enc_callout c = callout_head_bytes c ++ flat_map enc_sub (c_subs c).
+Proof. unfold enc_callout, callout_head_bytes. rewrite <- !app_assoc. reflexivity. Qed.
+
+Lemma parse_callout_enc c rest : wf_callout c ->
+  parse_callout (enc_callout c ++ rest) = Some (Some c, rest).
+Proof.
+  intros W. pose proof W as (H1 & H2 & Hl & Ha & Ws & Sh & Hs & H8).
+  rewrite enc_callout_split, <- app_assoc. unfold parse_callout.
+  unfold bind at 1. rewrite callout_head_enc by assumption. cbv beta iota.
+  unfold bind at 1. unfold remaining at 1. cbv beta iota.
+  unfold bind at 1. rewrite parse_subs_exact; [|assumption|rewrite app_length; pose proof (subs_len (c_subs c)); lia|lia].
   cbv beta iota. unfold ret. cbn [rev app]. destruct c; reflexivity.
 Qed.
 
@@ -138,7 +158,7 @@ Proof.
     assert (4 <= c_size c) by (destruct Wc as (_ & _ & _ & _ & _ & _ & -> & _); lia).
     cbn [parse_callout_list flat_map]. unfold callouts_size. cbn [fold_right]. fold (callouts_size l). unfold callout_size.
     assert (cur <? cur + (c_size c + callouts_size l) = true) as -> by (apply N.ltb_lt; lia).
-    rewrite <- app_assoc. unfold bind at 1. rewrite parse_callout_enc by (auto; simpl in Lf; lia). cbv beta iota.
+    rewrite <- app_assoc. unfold bind at 1. rewrite parse_callout_enc by assumption. cbv beta iota.
     rewrite callout_flat_size by assumption.
     rewrite IH; [|assumption|simpl in Lf; lia|lia].
     cbn [rev]. rewrite <- app_assoc. reflexivity.
@@ -156,10 +176,12 @@ Lemma parse_callouts_enc cs rest : wf_callouts cs -> parse_callouts (enc_callout
 Proof.
   intros (H1 & H2 & H3 & Wl & Hw).
   unfold parse_callouts, enc_callouts, be. rewrite <- !app_assoc. rd.
-  unfold bind at 1. unfold remaining at 1. cbv beta iota.
   unfold bind at 1. rewrite parse_callout_list_exact; [|assumption| |lia].
   - cbv beta iota. unfold ret. cbn [rev app]. destruct cs; reflexivity.
-  - rewrite app_length. pose proof (callouts_len _ Wl). lia.
+  - assert (4 * N.of_nat (length (cs_list cs)) <= callouts_size (cs_list cs)).
+    { clear - Wl. induction Wl as [|c l Wc Wl IH]; [simpl; lia|]. unfold callouts_size in *. cbn [fold_right length].
+      unfold callout_size at 1. destruct Wc as (_ & _ & _ & _ & _ & _ & -> & _). lia. }
+    lia.
 Qed.
 
 Lemma read_words ws rest : length ws = 8%nat -> Forall lt32 ws ->
